@@ -602,8 +602,17 @@ impl<Tx: Debug + ProstMessage + Default, Rx: Debug + ProstMessage + Default> Cha
                     buffer.len(),
                     "available_data must equal the data slice length we validated against"
                 );
-                let message = Rx::decode(&buffer[delimiter_size()..message_len])
-                    .map_err(ChannelError::InvalidProtobufMessage)?;
+                let message = match Rx::decode(&buffer[delimiter_size()..message_len]) {
+                    Ok(message) => message,
+                    Err(decode_error) => {
+                        // The frame boundary is known: drop the undecodable frame,
+                        // like the short-prefix branch above drops its prefix.
+                        // Left in place it would be decoded again on every call
+                        // and the messages queued behind it never delivered.
+                        self.front_buf.consume(message_len);
+                        return Err(ChannelError::InvalidProtobufMessage(decode_error));
+                    }
+                };
                 let consumed = self.front_buf.consume(message_len);
                 // The whole frame (delimiter + payload) is consumed exactly:
                 // pair-assert that consume advanced by message_len and the data
